@@ -15,6 +15,8 @@ import time
 
 import sympy as sp
 import z3
+
+from vlib.par import guarded
 from sympy.physics.units import Dimension
 from sympy.physics.units.systems.si import dimsys_SI as REAL_DIMSYS
 
@@ -91,7 +93,8 @@ class Session:
         for c in cons:
             s.add(c)
         t0 = time.time()
-        r = str(s.check())
+        with guarded("z3 check (Session)"):
+            r = str(s.check())
         dt = time.time() - t0
         self.solver_s += dt
         self.queries += 1
